@@ -5,6 +5,7 @@ From Coq Require Import ZArith List Bool Arith.
 From PlonkV Require Import Base.Fr Base.FrFacts Gates.Gate Gates.CS Gates.CSFacts
   Composer.State Composer.Components Composer.ArithFacts Composer.BasicFacts Composer.RangeFacts
   Composer.DecompFacts Curve.Jubjub Curve.JubjubFacts Composer.PointComponents Composer.PointFacts.
+From PlonkV Require Import Curve.Assoc Curve.GroupLaw Composer.GroupCorollaries.
 Import ListNotations.
 Local Open Scope fr_scope.
 
@@ -239,3 +240,45 @@ Check C12_mul_point_in_system : forall (PR : PrimeR) (ND : NonSquareD) pre post 
   (asg (fst res), asg (snd res)) = ed_mul (val (asg jubjub)) P /\
   on_curve (asg (fst res), asg (snd res)).
 Print Assumptions C12_mul_point_in_system.
+
+(* ---- the group law: associativity, and the components compute scalar multiples ---- *)
+Theorem C12_law_assoc : forall (PR : PrimeR) (ND : NonSquareD) p q s,
+  on_curve p -> on_curve q -> on_curve s -> ed_add (ed_add p q) s = ed_add p (ed_add q s).
+Proof. exact @ed_add_assoc. Qed.
+Check C12_law_assoc : forall (PR : PrimeR) (ND : NonSquareD) p q s,
+  on_curve p -> on_curve q -> on_curve s -> ed_add (ed_add p q) s = ed_add p (ed_add q s).
+Print Assumptions C12_law_assoc.
+
+(* integer multiples (repeated addition / negation) form a homomorphism Z -> curve *)
+Theorem C12_scalar_multiple_hom : forall (PR : PrimeR) (ND : NonSquareD) j k p,
+  on_curve p -> zsmul (j + k) p = ed_add (zsmul j p) (zsmul k p).
+Proof. exact @zsmul_add. Qed.
+Check C12_scalar_multiple_hom : forall (PR : PrimeR) (ND : NonSquareD) j k p,
+  on_curve p -> zsmul (j + k) p = ed_add (zsmul j p) (zsmul k p).
+Print Assumptions C12_scalar_multiple_hom.
+
+(* dusk-jubjub's MSB-first double-and-add IS the scalar multiple *)
+Theorem C12_ladder_is_scalar_multiple : forall (PR : PrimeR) (ND : NonSquareD) k p,
+  on_curve p -> (0 <= k < 2 ^ 252)%Z -> ed_mul k p = zsmul k p.
+Proof. exact @ed_mul_is_scalar_multiple. Qed.
+Check C12_ladder_is_scalar_multiple : forall (PR : PrimeR) (ND : NonSquareD) k p,
+  on_curve p -> (0 <= k < 2 ^ 252)%Z -> ed_mul k p = zsmul k p.
+Print Assumptions C12_ladder_is_scalar_multiple.
+
+(* component_mul_point: any satisfying assignment of its rows has result = [scalar] P *)
+Theorem C12_mul_point_scalar_multiple : forall (PR : PrimeR) (ND : NonSquareD) asg jubjub point n,
+  let P := (asg (fst point), asg (snd point)) in
+  asg W_ZERO = fzero -> asg W_ONE = fone -> on_curve P ->
+  block_sat (mul_point_rows jubjub point n) asg ->
+  let res := mul_point_result point n in
+  (val (asg jubjub) < 2 ^ 252)%Z /\
+  (asg (fst res), asg (snd res)) = zsmul (val (asg jubjub)) P.
+Proof. exact @mul_point_scalar_multiple. Qed.
+Check C12_mul_point_scalar_multiple : forall (PR : PrimeR) (ND : NonSquareD) asg jubjub point n,
+  let P := (asg (fst point), asg (snd point)) in
+  asg W_ZERO = fzero -> asg W_ONE = fone -> on_curve P ->
+  block_sat (mul_point_rows jubjub point n) asg ->
+  let res := mul_point_result point n in
+  (val (asg jubjub) < 2 ^ 252)%Z /\
+  (asg (fst res), asg (snd res)) = zsmul (val (asg jubjub)) P.
+Print Assumptions C12_mul_point_scalar_multiple.
